@@ -147,6 +147,20 @@ def random_program(rng, nfns=3, ncls=2, max_calls=2, p_false=0.15, plain_sub=Fal
     case = {"dom": "reentry", "prog": prog, "variant": REPAIRED, "top": top, "fuel": 400, "bases": bases, "clsMode": modes,
             "pyLimit": 700,
             "asyncMeths": dict(("%d.%d" % (c, m), True) for c in range(nc) for m in range(nmeth[c]) if rng.random() < 0.3)}
+    # trailing truthy preconditions of a function with a postcondition may be realised as snapshot captures:
+    # evaluated after the preconditions, while the function is still in progress, never violated
+    caps = {}
+    for f, d in enumerate(fns):
+        if d["post"] and d["pre"]:
+            n = 0
+            for c_ in reversed(d["pre"]):
+                if c_["truthy"]:
+                    n += 1
+                else:
+                    break
+            if n and rng.random() < 0.6:
+                caps[str(f)] = rng.randint(1, n)
+    case["captures"] = caps
     if any(modes[c] == "plain" and bases[c] is not None for c in range(nc)):
         # what the library can actually see: a plain subclass of a decorated class is created behind its back
         import copy
